@@ -16,7 +16,7 @@ TRUSTED = [
     'CPython RLock/Condition give the atomicity of task wake-ups the RT transition system assumes',
 ]
 ASSUMES = ['a program is Routine(body 0).play(SystemClock): everything else (clocks, routines, conditions, seeds, sends) happens inside routines, so that real time has one start instant',
-           'RT agreement is asserted for programs whose routines communicate (conditions, flow variables, shared generators, pause/resume, tempo changes) only with routines of the same clock: across clocks the order of two wake-ups follows the physical time at which each clock thread runs',
+           'RT agreement is asserted for programs whose routines communicate (conditions, flow variables, shared generators, pause/resume, tempo changes) only inside a group (a routine played from another clock, or the root, and what it plays on its own clock): across clock threads the order of two wake-ups follows the physical time at which each thread runs',
            'main._m_rgen (the generator of the main thread, which rand_seed cannot seed) is seeded by the harness']
 
 HEADER = ('From Coq Require Import ZArith QArith List Bool. Import ListNotations.\n'
@@ -86,7 +86,7 @@ DELTAS = ['0', '1/8', '1/4', '3/8', '1/2', '1', '1/16']
 def gen_xprog(rng, profile):
     """profile: 'nrt' (anything, also communication across clocks), 'single' (SystemClock only),
     'groups' (several clocks; conditions, flow variables, shared generators, pause/resume and tempo
-    changes only among routines of one clock)"""
+    changes only inside one GROUP = a routine played across clocks and what it plays on its own clock)"""
     rt = profile != 'nrt'
     ntempo = 0 if profile == 'single' else rng.choice([1, 1, 2])
     tempos = [rng.choice(TEMPI) for _ in range(ntempo)]
@@ -595,7 +595,7 @@ def search(ctx, failures):
         d = diff_runs(p, a, r, is_single(p))
         if d:
             found.append(Failure('search', 'RT and NRT runs of one program differ: %s. Program: %s' % (d[:1200], json.dumps(p)), theorem='rt_nrt_agree',
-                                 found_input=True, replay={'program': p, 'difference': d, 'nrt_events': a['events'], 'rt_events': r['events'],
+                                 signature=SIG_DUP if p is DUP_PROG else None, found_input=True, replay={'program': p, 'difference': d, 'nrt_events': a['events'], 'rt_events': r['events'],
                                                            'nrt_vals': a['vals'], 'rt_vals': r['vals']}))
             break
     # 3. a self-seeded routine's draws do not change when the others draw more
